@@ -273,6 +273,7 @@ theorem step_keeps_pool {s s' : State} (a : Action) (hna : a.isCfg = false) (hs 
   | after r => simp only [step, stepAfter] at hs; keep_pool hs
   | forget i => simp only [step, stepForget] at hs; keep_pool hs
   | fallback r => simp only [step, stepFallback] at hs; keep_pool hs
+  | dialInfoFails r => simp only [step, stepDialInfoFails] at hs; keep_pool hs
   | activeCheck c i pass => obtain ⟨_, _, _, _, _, h6, h7, _⟩ := stepActive_core hs; exact ⟨h6, h7⟩
   | tick => simp [step] at hs; subst hs; exact ⟨rfl, rfl⟩
 
@@ -327,6 +328,7 @@ theorem poolInv_step {s s' : State} (a : Action) (hi : PoolInv s) (hs : step s a
   | after r => exact poolInv_of_same hi (step_keeps_pool _ rfl hs)
   | forget i => exact poolInv_of_same hi (step_keeps_pool _ rfl hs)
   | fallback r => exact poolInv_of_same hi (step_keeps_pool _ rfl hs)
+  | dialInfoFails r => exact poolInv_of_same hi (step_keeps_pool _ rfl hs)
   | activeCheck c i pass => exact poolInv_of_same hi (step_keeps_pool _ rfl hs)
   | tick => exact poolInv_of_same hi (step_keeps_pool _ rfl hs)
 
